@@ -32,7 +32,7 @@ LInit == LET st == LFresh("free", 30000000, 0) IN mode = st.mode /\ idleT = st.i
 
 Rx(e, t) == lastRx' = [lastRx EXCEPT ![e] = t] /\ UNCHANGED <<mode, idleT, lastTx, pto, closedAt, sendOpen, mustEos, mustDone, failed, hx>>
 TxEliciting(e, t) == lastTx' = [lastTx EXCEPT ![e] = t] /\ UNCHANGED <<mode, idleT, lastRx, pto, closedAt, sendOpen, mustEos, mustDone, failed, hx>>
-Pow2(n) == IF n = 0 THEN 1 ELSE IF n = 1 THEN 2 ELSE IF n = 2 THEN 4 ELSE IF n = 3 THEN 8 ELSE IF n = 4 THEN 16 ELSE IF n = 5 THEN 32 ELSE 64
+Pow2(n) == IF n >= 15 THEN 32768 ELSE 2 ^ n      \* the product below is capped at 600 s anyway
 MetricsSeen(e, srtt, rttvar, mad, count) ==
   pto' = [pto EXCEPT ![e] = Min2((srtt + Max2(4 * rttvar, 1000) + mad) * Pow2(count), 600000000)]
   /\ UNCHANGED <<mode, idleT, lastRx, lastTx, closedAt, sendOpen, mustEos, mustDone, failed, hx>>
